@@ -8,93 +8,83 @@ Property theorems only, about `Aw.Unov.unov`, the model of the (repaired, four-c
 (`true` = list one); the Python result is `(unov l1 l2).map (·.2)`, `out1`/`out2` are the events
 of either origin in output order. The payload type `D` is arbitrary.
 
-Hypotheses. `Chain l`: durations ≥ 0 and every event ends at or before the start of every later
-one (sorted, internally non-overlapping; a zero-length event may sit on an edge of its neighbour).
-`MsAligned l1`: instants and durations of the **list-one** events are whole milliseconds (an
-`Event` cannot hold a finer instant, and the cut points are the edges of list-one events; list two
-may have microsecond durations).
+The quantifier of C15 is `Input l`: durations ≥ 0, every event ends at or before the start of every
+later one (sorted, internally non-overlapping; a zero-length event may sit on an edge of its
+neighbour), instants whole milliseconds (true of every `Event` object). Coverage is **half-open**,
+`ts ≤ t < ts + dur`, everywhere; zero-length events (which cover nothing) have their own statement
+`list2_zero_length`.
 
-Coverage is **half-open**, `ts ≤ t < ts + dur`, everywhere; zero-length events (which cover
-nothing) have their own statement `list2_zero_length`.
+The property does NOT hold in full on the real code, and the model shows why: `_split_event` writes
+the start of the tail through `Event.timestamp`'s setter, which floors to whole milliseconds, while
+durations keep microseconds. When a list-one event ends between two millisecond ticks, the tail of
+the list-two event it cuts starts up to 999 µs *before* that end (and, its duration being computed
+from the exact cut, also ends that much early). Hence `list2_pieces`, `out_nonoverlap` and
+`cover_union` hold only under the extra hypothesis `WholeMsDurations l1` (the list-one durations are
+multiples of 1000 µs; list two may have any durations). They are proved under it with the suffix
+`_partial`; the full statements are the `def`s `List2Pieces`, `OutNonoverlap`, `CoverUnion`, and all
+three are refuted on the model by one concrete witness (`…_refuted`) which the harness replays on
+the real code (open finding `submillisecond-list-one`; same root cause as C10's
+`submillisecond-duration`). `list1_intact`, `list2_pieces_within`, `list2_zero_length` and
+`terminates` hold in full.
 -/
 namespace AwProofs.C15
 open Aw Aw.Unov AwProofs.Unov
 variable {D : Type}
+
+/-- the quantifier of C15 for one list -/
+def Input (l : List (Ev D)) : Prop := Chain l ∧ TsMs l
+
+/-- some event of the list covers `t` (half-open) -/
+def cov (l : List (Ev D)) (t : Int) : Prop := ∃ e ∈ l, e.ts ≤ t ∧ t < e.ts + e.dur
+
+/-- some event of the list with payload `p` covers `t` (half-open) -/
+def covD (l : List (Ev D)) (p : D) (t : Int) : Prop :=
+  ∃ e ∈ l, e.data = p ∧ e.ts ≤ t ∧ t < e.ts + e.dur
+
+/-- durations ≥ 0 and, in the order given, every event ends at or before the start of every later
+    one -/
+def Nonoverlap (o : List (Ev D)) : Prop :=
+  (∀ e ∈ o, 0 ≤ e.dur) ∧ o.Pairwise (fun a b => a.ts + a.dur ≤ b.ts)
+
+/-- C15, second part, full strength: `t` is covered by a list-two output piece with payload `p`
+    iff `t` is covered by a list-two event with payload `p` and by no list-one event -/
+def List2Pieces (D : Type) : Prop :=
+  ∀ (l1 l2 : List (Ev D)), Input l1 → Input l2 → ∀ (t : Int) (p : D),
+    covD (out2 (unov l1 l2)) p t ↔ covD l2 p t ∧ ¬ cov l1 t
+
+/-- C15, third part, full strength: the returned list, in the order returned, is sorted and
+    non-overlapping -/
+def OutNonoverlap (D : Type) : Prop :=
+  ∀ (l1 l2 : List (Ev D)), Input l1 → Input l2 → Nonoverlap ((unov l1 l2).map (·.2))
+
+/-- C15, fourth part, full strength: the covered time is the union of both inputs -/
+def CoverUnion (D : Type) : Prop :=
+  ∀ (l1 l2 : List (Ev D)), Input l1 → Input l2 → ∀ t : Int,
+    cov ((unov l1 l2).map (·.2)) t ↔ cov l1 t ∨ cov l2 t
+
+/-! ## statements that hold in full -/
 
 /-- the list-one outputs are exactly `l1`: unchanged, in order, nothing added or lost
     (for all inputs, no hypotheses) -/
 theorem list1_intact (l1 l2 : List (Ev D)) : out1 (unov l1 l2) = l1 :=
   list1_eq l1 l2
 
-/-- `t` is covered by a list-two output piece with payload `p` iff `t` is covered by a list-two
-    event with payload `p` and by no list-one event (half-open coverage) -/
-theorem list2_pieces (l1 l2 : List (Ev D)) (h1 : Chain l1) (h2 : Chain l2) (ha : MsAligned l1)
-    (t : Int) (p : D) :
-    (∃ o ∈ out2 (unov l1 l2), o.data = p ∧ o.ts ≤ t ∧ t < o.ts + o.dur) ↔
-    (∃ f ∈ l2, f.data = p ∧ f.ts ≤ t ∧ t < f.ts + f.dur ∧
-      ¬ ∃ e ∈ l1, e.ts ≤ t ∧ t < e.ts + e.dur) := by
-  have h := pieces_iff l1 l2 p t h1 h2 ha
-  simp only [OutCov2, CovByData, CovBy, Covers] at h
-  constructor
-  · rintro ⟨o, ho, hp, hc⟩
-    obtain ⟨⟨f, hf, hfp, hfc⟩, hn⟩ := h.1 ⟨(false, o), mem_out2.1 ho, rfl, hp, hc⟩
-    exact ⟨f, hf, hfp, hfc.1, hfc.2, hn⟩
-  · rintro ⟨f, hf, hfp, hf1, hf2, hn⟩
-    obtain ⟨x, hx, hb, hp, hc⟩ := h.2 ⟨⟨f, hf, hfp, hf1, hf2⟩, hn⟩
-    obtain ⟨b, o⟩ := x
-    simp only at hb
-    subst hb
-    exact ⟨o, mem_out2.2 hx, hp, hc⟩
-
 /-- every list-two output is a part of one list-two event: same payload and id, inside its
-    interval -/
-theorem list2_pieces_within (l1 l2 : List (Ev D)) (ha : MsAligned l1) :
+    interval (any durations; only "instants are whole milliseconds" is used) -/
+theorem list2_pieces_within (l1 l2 : List (Ev D)) (h1 : Input l1) (h2 : Input l2) :
     ∀ o ∈ out2 (unov l1 l2), ∃ f ∈ l2, o.data = f.data ∧ o.id = f.id ∧ f.ts ≤ o.ts ∧
       o.ts + o.dur ≤ f.ts + f.dur := by
   intro o ho
-  exact pieces_within l1 l2 ha (false, o) (mem_out2.1 ho) rfl
+  exact pieces_within l1 l2 h1.2 h2.2 (false, o) (mem_out2.1 ho) rfl
 
 /-- a zero-length event is among the list-two outputs iff it is a list-two event that is not
     strictly inside a list-one event (on an edge of a list-one event it is kept) -/
-theorem list2_zero_length (l1 l2 : List (Ev D)) (h1 : Chain l1) (h2 : Chain l2)
-    (ha : MsAligned l1) (f : Ev D) (hf : f.dur = 0) :
+theorem list2_zero_length (l1 l2 : List (Ev D)) (h1 : Input l1) (h2 : Input l2)
+    (f : Ev D) (hf : f.dur = 0) :
     f ∈ out2 (unov l1 l2) ↔
       f ∈ l2 ∧ ¬ ∃ e ∈ l1, e.ts < f.ts ∧ f.ts < e.ts + e.dur := by
   rw [mem_out2]
-  exact zero_length_iff l1 l2 f hf h1 h2 ha
-
-/-- the returned list, in the order returned, is sorted and non-overlapping: durations ≥ 0 and
-    every event ends at or before the start of every later one -/
-theorem out_nonoverlap (l1 l2 : List (Ev D)) (h1 : Chain l1) (h2 : Chain l2) (ha : MsAligned l1) :
-    (∀ o ∈ (unov l1 l2).map (·.2), 0 ≤ o.dur) ∧
-    ((unov l1 l2).map (·.2)).Pairwise (fun a b => a.ts + a.dur ≤ b.ts) :=
-  out_chain l1 l2 h1 h2 ha
-
-/-- the time covered by the result is the union of the time covered by the two inputs -/
-theorem cover_union (l1 l2 : List (Ev D)) (h1 : Chain l1) (h2 : Chain l2) (ha : MsAligned l1)
-    (t : Int) :
-    (∃ o ∈ (unov l1 l2).map (·.2), o.ts ≤ t ∧ t < o.ts + o.dur) ↔
-    ((∃ e ∈ l1, e.ts ≤ t ∧ t < e.ts + e.dur) ∨ (∃ f ∈ l2, f.ts ≤ t ∧ t < f.ts + f.dur)) := by
-  have hl : ∀ e, (true, e) ∈ unov l1 l2 ↔ e ∈ l1 := by
-    intro e
-    rw [← mem_out1, list1_eq]
-  constructor
-  · rintro ⟨o, ho, hc⟩
-    obtain ⟨⟨b, o'⟩, hx, rfl⟩ := List.mem_map.1 ho
-    cases b
-    · have := (list2_pieces l1 l2 h1 h2 ha t o'.data).1 ⟨o', mem_out2.2 hx, rfl, hc⟩
-      obtain ⟨f, hf, _, hf1, hf2, _⟩ := this
-      exact Or.inr ⟨f, hf, hf1, hf2⟩
-    · exact Or.inl ⟨o', (hl o').1 hx, hc⟩
-  · intro h
-    by_cases hc1 : ∃ e ∈ l1, e.ts ≤ t ∧ t < e.ts + e.dur
-    · obtain ⟨e, he, hc⟩ := hc1
-      exact ⟨e, List.mem_map.2 ⟨(true, e), (hl e).2 he, rfl⟩, hc⟩
-    · rcases h with h | ⟨f, hf, hf1, hf2⟩
-      · exact absurd h hc1
-      · obtain ⟨o, ho, _, hc⟩ :=
-          (list2_pieces l1 l2 h1 h2 ha t f.data).2 ⟨f, hf, rfl, hf1, hf2, hc1⟩
-        exact ⟨o, List.mem_map.2 ⟨(false, o), mem_out2.1 ho, rfl⟩, hc⟩
+  exact zero_length_iff l1 l2 f hf h1.1 h2.1 h1.2
 
 /-- The loop terminates on **all** integer inputs (unsorted, overlapping, negative durations,
     instants that are not whole milliseconds). `unov` is a total Lean function, accepted by
@@ -105,17 +95,119 @@ theorem cover_union (l1 l2 : List (Ev D)) (h1 : Chain l1) (h2 : Chain l2) (ha : 
 theorem terminates (l1 l2 : List (Ev D)) : ∃ n, unovFuel n l1 l2 = some (unov l1 l2) :=
   fuel_exists l1 l2
 
-/-! Non-vacuity: the hypotheses hold on a concrete input where a list-one event spans several
+/-! ## statements that need whole-millisecond list-one durations -/
+
+/-- `List2Pieces` for inputs whose list-one durations are whole milliseconds.
+    PARTIAL: needs `WholeMsDurations l1`; the full statement `List2Pieces` is refuted below. -/
+theorem list2_pieces_partial (l1 l2 : List (Ev D)) (h1 : Input l1) (h2 : Input l2)
+    (hw : WholeMsDurations l1) (t : Int) (p : D) :
+    covD (out2 (unov l1 l2)) p t ↔ covD l2 p t ∧ ¬ cov l1 t := by
+  have h := pieces_iff l1 l2 p t h1.1 h2.1 (msAligned_of h1.2 hw)
+  simp only [OutCov2, CovByData, CovBy, Covers] at h
+  simp only [covD, cov]
+  constructor
+  · rintro ⟨o, ho, hp, hc⟩
+    exact h.1 ⟨(false, o), mem_out2.1 ho, rfl, hp, hc⟩
+  · intro hr
+    obtain ⟨x, hx, hb, hp, hc⟩ := h.2 hr
+    obtain ⟨b, o⟩ := x
+    simp only at hb
+    subst hb
+    exact ⟨o, mem_out2.2 hx, hp, hc⟩
+
+/-- `OutNonoverlap` for inputs whose list-one durations are whole milliseconds.
+    PARTIAL: needs `WholeMsDurations l1`; the full statement `OutNonoverlap` is refuted below. -/
+theorem out_nonoverlap_partial (l1 l2 : List (Ev D)) (h1 : Input l1) (h2 : Input l2)
+    (hw : WholeMsDurations l1) : Nonoverlap ((unov l1 l2).map (·.2)) :=
+  out_chain l1 l2 h1.1 h2.1 (msAligned_of h1.2 hw)
+
+/-- `CoverUnion` for inputs whose list-one durations are whole milliseconds.
+    PARTIAL: needs `WholeMsDurations l1`; the full statement `CoverUnion` is refuted below. -/
+theorem cover_union_partial (l1 l2 : List (Ev D)) (h1 : Input l1) (h2 : Input l2)
+    (hw : WholeMsDurations l1) (t : Int) :
+    cov ((unov l1 l2).map (·.2)) t ↔ cov l1 t ∨ cov l2 t := by
+  have hl : ∀ e, (true, e) ∈ unov l1 l2 ↔ e ∈ l1 := by
+    intro e
+    rw [← mem_out1, list1_eq]
+  constructor
+  · rintro ⟨o, ho, hc⟩
+    obtain ⟨⟨b, o'⟩, hx, rfl⟩ := List.mem_map.1 ho
+    cases b
+    · have := (list2_pieces_partial l1 l2 h1 h2 hw t o'.data).1 ⟨o', mem_out2.2 hx, rfl, hc⟩
+      obtain ⟨⟨f, hf, _, hfc⟩, _⟩ := this
+      exact Or.inr ⟨f, hf, hfc⟩
+    · exact Or.inl ⟨o', (hl o').1 hx, hc⟩
+  · intro h
+    by_cases hc1 : cov l1 t
+    · obtain ⟨e, he, hc⟩ := hc1
+      exact ⟨e, List.mem_map.2 ⟨(true, e), (hl e).2 he, rfl⟩, hc⟩
+    · rcases h with h | ⟨f, hf, hfc⟩
+      · exact absurd h hc1
+      · obtain ⟨o, ho, _, hc⟩ :=
+          (list2_pieces_partial l1 l2 h1 h2 hw t f.data).2 ⟨⟨f, hf, rfl, hfc⟩, hc1⟩
+        exact ⟨o, List.mem_map.2 ⟨(false, o), mem_out2.1 ho, rfl⟩, hc⟩
+
+/-! ## the full statements are false: a list-one event ending between two millisecond ticks -/
+
+/-- witness: list one `[0, 1.5 ms)`, list two `[1 ms, 2 ms)`. The uncovered part of the list-two
+    event is `[1.5 ms, 2 ms)`; the tail is written at `floor(1.5 ms) = 1 ms` with duration 0.5 ms,
+    so `[1 ms, 1.5 ms)` is returned: entirely under the list-one event, and `[1.5 ms, 2 ms)` is
+    covered by nothing. -/
+def subMsWitness1 : List (Ev Bool) := [⟨none, 0, 1500, true⟩]
+def subMsWitness2 : List (Ev Bool) := [⟨none, 1000, 1000, false⟩]
+
+theorem subMsWitness_input : Input subMsWitness1 ∧ Input subMsWitness2 := by
+  unfold Input Chain TsMs subMsWitness1 subMsWitness2
+  decide
+
+theorem subMsWitness_out :
+    unov subMsWitness1 subMsWitness2 =
+      [(true, ⟨none, 0, 1500, true⟩), (false, ⟨none, 1000, 500, false⟩)] :=
+  fuel_sound _ _ 4 _ (by decide)
+
+/-- the returned list-two piece starts before the list-one event ends -/
+theorem out_nonoverlap_refuted : ¬ OutNonoverlap Bool := by
+  intro h
+  have := (h subMsWitness1 subMsWitness2 subMsWitness_input.1 subMsWitness_input.2).2
+  rw [subMsWitness_out] at this
+  revert this
+  decide
+
+/-- instant 1 ms is covered by a list-two output although the list-one event covers it -/
+theorem list2_pieces_refuted : ¬ List2Pieces Bool := by
+  intro h
+  have := (h subMsWitness1 subMsWitness2 subMsWitness_input.1 subMsWitness_input.2 1000 false).1
+  rw [subMsWitness_out] at this
+  have hc : covD (out2 [(true, (⟨none, 0, 1500, true⟩ : Ev Bool)), (false, ⟨none, 1000, 500, false⟩)])
+      false 1000 := ⟨⟨none, 1000, 500, false⟩, by decide, by decide⟩
+  obtain ⟨_, hn⟩ := this hc
+  exact hn ⟨⟨none, 0, 1500, true⟩, by decide, by decide⟩
+
+/-- instant 1.7 ms is covered by the list-two event but by no returned event -/
+theorem cover_union_refuted : ¬ CoverUnion Bool := by
+  intro h
+  have := (h subMsWitness1 subMsWitness2 subMsWitness_input.1 subMsWitness_input.2 1700).2
+    (Or.inr ⟨⟨none, 1000, 1000, false⟩, by decide, by decide⟩)
+  rw [subMsWitness_out] at this
+  obtain ⟨o, ho, hc⟩ := this
+  simp only [List.map_cons, List.map_nil, List.mem_cons, List.not_mem_nil, or_false] at ho
+  rcases ho with rfl | rfl
+  · revert hc; decide
+  · revert hc; decide
+
+/-! Non-vacuity of the `_partial` hypotheses: a concrete input where a list-one event spans several
 list-two events, a zero-length list-one event lies inside a list-two event and edges are shared. -/
 
-example : Chain (D := Nat) [⟨none, 0, 2000, 1⟩, ⟨none, 5000, 0, 2⟩] ∧
-    MsAligned (D := Nat) [⟨none, 0, 2000, 1⟩, ⟨none, 5000, 0, 2⟩] ∧
-    Chain (D := Nat) [⟨none, 0, 1000, 7⟩, ⟨none, 1000, 1500, 8⟩, ⟨none, 3000, 4000, 9⟩] := by
-  refine ⟨⟨by decide, by decide⟩, by unfold MsAligned; decide, ⟨by decide, by decide⟩⟩
+example : Input (D := Nat) [⟨none, 0, 2000, 1⟩, ⟨none, 5000, 0, 2⟩] ∧
+    WholeMsDurations (D := Nat) [⟨none, 0, 2000, 1⟩, ⟨none, 5000, 0, 2⟩] ∧
+    Input (D := Nat) [⟨none, 0, 1000, 7⟩, ⟨none, 1000, 1500, 8⟩, ⟨none, 3000, 4000, 9⟩] := by
+  unfold Input Chain TsMs WholeMsDurations
+  decide
 
-example : unovFuel (D := Nat) 9 [⟨none, 0, 2000, 1⟩, ⟨none, 5000, 0, 2⟩]
+example : unov (D := Nat) [⟨none, 0, 2000, 1⟩, ⟨none, 5000, 0, 2⟩]
       [⟨none, 0, 1000, 7⟩, ⟨none, 1000, 1500, 8⟩, ⟨none, 3000, 4000, 9⟩]
-    = some [(true, ⟨none, 0, 2000, 1⟩), (false, ⟨none, 2000, 500, 8⟩), (false, ⟨none, 3000, 2000, 9⟩),
-        (true, ⟨none, 5000, 0, 2⟩), (false, ⟨none, 5000, 2000, 9⟩)] := by decide
+    = [(true, ⟨none, 0, 2000, 1⟩), (false, ⟨none, 2000, 500, 8⟩), (false, ⟨none, 3000, 2000, 9⟩),
+        (true, ⟨none, 5000, 0, 2⟩), (false, ⟨none, 5000, 2000, 9⟩)] :=
+  fuel_sound _ _ 9 _ (by decide)
 
 end AwProofs.C15
